@@ -29,7 +29,7 @@ def confirm(src, k, seed_id, prop, needs):
     sh(["git", "-C", REPO, "worktree", "remove", "--force", wt])
     rc, out = sh(["git", "-C", REPO, "worktree", "add", wt, "HEAD"])
     assert rc == 0, out
-    env = dict(os.environ, CARGO_NET_OFFLINE="true", CARGO_TARGET_DIR="/tmp/confirm_target")
+    env = dict(os.environ, CARGO_NET_OFFLINE="true", CARGO_TARGET_DIR=os.environ.get("CONFIRM_TARGET", "/tmp/confirm_target"))
     res = {"seed": seed_id, "property": prop}
     try:
         shutil.copy(demo, os.path.join(wt, "tests", "seed_demo.rs"))
